@@ -159,9 +159,28 @@ def compile_harness(cfg, sources, name, extra=()):
 
 # ---------------------------------------------------------------- Coq
 
+def gen_coqproject():
+    """_CoqProject lists every .v under lib/ model/ proofs/ props/ gen/ (nobody edits it by hand)."""
+    files = []
+    for d in ("lib", "gen", "model", "proofs", "props"):
+        p = os.path.join(COQ, d)
+        if os.path.isdir(p):
+            files += sorted(os.path.join(d, f) for f in os.listdir(p) if f.endswith(".v"))
+    text = "-Q . YV\n" + "\n".join(files) + "\n"
+    cp = os.path.join(COQ, "_CoqProject")
+    old = open(cp).read() if os.path.exists(cp) else ""
+    if old != text:
+        with open(cp + ".tmp%d" % os.getpid(), "w") as f:
+            f.write(text)
+        os.replace(cp + ".tmp%d" % os.getpid(), cp)
+        return True
+    return False
+
+
 def coq_make(targets, timeout=900):
     """make the given .vo targets (paths relative to coq/). Returns (ok, log)."""
-    if not os.path.exists(os.path.join(COQ, "Makefile")):
+    changed = gen_coqproject()
+    if changed or not os.path.exists(os.path.join(COQ, "Makefile")):
         r = sh(["coq_makefile", "-f", "_CoqProject", "-o", "Makefile"], cwd=COQ)
         if r.returncode != 0:
             return False, r.stdout
